@@ -1204,6 +1204,11 @@ func (r *Reader) start(offsetsByPartition map[topicPartition]int64) {
 	r.version++
 	verifTrace("reader.start", r, r.version, offsetsByPartition)
 
+	// The version must be read here, under the mutex held by the caller, and
+	// not by the goroutines started below, which may run after a later call
+	// to start has incremented it.
+	version := r.version
+
 	r.join.Add(len(offsetsByPartition))
 	for key, offset := range offsetsByPartition {
 		go func(ctx context.Context, key topicPartition, offset int64, join *sync.WaitGroup) {
@@ -1222,7 +1227,7 @@ func (r *Reader) start(offsetsByPartition map[topicPartition]int64) {
 				readBatchTimeout: r.config.ReadBatchTimeout,
 				backoffDelayMin:  r.config.ReadBackoffMin,
 				backoffDelayMax:  r.config.ReadBackoffMax,
-				version:          r.version,
+				version:          version,
 				msgs:             r.msgs,
 				stats:            r.stats,
 				isolationLevel:   r.config.IsolationLevel,
